@@ -481,7 +481,67 @@ def _worker(spec):
         return {"values": msg, "cat": msg, "bytes": msg}
 
 
+# ---- fourth family: frames with a MultiIndex row index, written in slices ----------------------------------------------------
+G_MI = "c07.multiindex"
+MI_CUTS = [[(0, 3), (3, 5), (5, 8)], [(0, 2), (2, 8)], [(0, 6), (6, 7), (7, 8)], [(0, 4), (4, 8)], [(0, 1), (1, 2), (2, 3), (3, 8)]]
+
+
+def c07_mi_frame(levels_used):
+    import numpy as np
+    import pandas as pd
+    site = list("aabbccdd") if levels_used == "sorted" else list("dacabdcb")
+    n = [0, 1, 0, 1, 0, 1, 0, 1]
+    return pd.DataFrame({"v": np.arange(8.0), "w": list("klmnopqr")},
+                        index=pd.MultiIndex.from_arrays([site, n], names=["site", "n"]))
+
+
+def c07_mi_case(spec):
+    """-> None | text.  Each slice of the frame uses only some labels of each index level (its categories differ from slice to
+    slice unless the writer keeps the frame's full level sets): after every append the dataset reads as the rows written so far"""
+    import os
+    fp = import_fastparquet()
+    scheme, cuts, used = spec
+    df = c07_mi_frame(used)
+    try:
+        with tmpdir("verif-c07mi-") as root:
+            path = os.path.join(root, "x.parq" if scheme == "simple" else "ds")
+            for i, (a, b) in enumerate(cuts):
+                fp.write(path, df.iloc[a:b], file_scheme=scheme, append=bool(i))
+                want = df.iloc[:b]
+                pf = fp.ParquetFile(path)
+                flat = pf.to_pandas(index=False)
+                got = list(zip(flat["site"].astype(str), [int(x) for x in flat["n"]], [float(x) for x in flat["v"]], flat["w"].astype(str)))
+                exp = list(zip([t[0] for t in want.index], [int(t[1]) for t in want.index], [float(x) for x in want["v"]], list(want["w"])))
+                if got != exp:
+                    return f"after step {i} (rows {a}:{b}) index levels as columns: {got[:4]} != written {exp[:4]}"
+                full = pf.to_pandas()
+                gi = [(str(t[0]), int(t[1])) for t in full.index]
+                if gi != [(t[0], int(t[1])) for t in want.index] or [float(x) for x in full["v"]] != [float(x) for x in want["v"]]:
+                    return f"after step {i} (rows {a}:{b}) full read: index {gi[:4]} != written {list(want.index)[:4]}"
+        return None
+    except Exception as e:
+        return f"raised {type(e).__name__}: {str(e)[:200]}"
+
+
+def run_multiindex(ctx):
+    from runtime.harness import robust_map, WorkerDied
+    ctx.bounded_group(G_MI, rule=(
+        "a frame with a two-level MultiIndex row index (8 rows, levels site in a..d and n in 0..1; index sorted / unsorted) written in "
+        f"contiguous slices {MI_CUTS} by write() + write(append=True), simple and hive: after EVERY step a fresh open gives back the rows "
+        "written so far - the index levels as columns (index=False) and the materialised index of the full read"))
+    specs = [(scheme, cuts, used) for scheme in ("simple", "hive") for cuts in MI_CUTS for used in ("sorted", "unsorted")]
+    for spec, res in zip(specs, robust_map(c07_mi_case, specs, 8)):
+        feats = {"scheme": spec[0], "cuts": str(spec[1]), "index_order": spec[2], "steps": len(spec[1])}
+        with Case(ctx, G_MI, feats, nontrivial=True,
+                  contract="after every append: read == concatenation of the slices written so far (MultiIndex levels and values)") as c:
+            if isinstance(res, WorkerDied):
+                c.fail(res.what())
+            elif res is not None:
+                c.fail(res)
+
+
 def run_bounded(ctx):
+    run_multiindex(ctx)
     ctx.bounded_group(G, rule=(
         "histories = original write + 1..3 appends (thorough: ..5, seeded sample) over the batch alphabet "
         f"{ {k: v[:2] + (list(v[2]),) for k, v in BATCHES.items()} } (rows, nulls, category labels): all sequences of "
